@@ -278,11 +278,18 @@ struct HashTable {
         }
 
         if (Size() > new_size) {
-            // Shrink
-            HItem *storage = Storage();
-            Memory::Dispose((storage + new_size), (storage + Size()));
+            // Shrink: keep the first 'new_size' live items (removed items do not count).
+            HItem       *item = Storage();
+            const HItem *end  = (item + Size());
+            SizeT        live = 0;
 
-            setSize(new_size);
+            while ((item < end) && (live < new_size)) {
+                live += SizeT(item->Hash != 0);
+                ++item;
+            }
+
+            Memory::Dispose(item, end);
+            setSize(SizeT(item - Storage()));
         }
 
         resize(new_size);
